@@ -8,6 +8,7 @@ import GitSizer.Driver.Output
 import GitSizer.Driver.Meter
 import GitSizer.Driver.E2E
 import GitSizer.Driver.Cli
+import GitSizer.Driver.Paths
 /-! `gsmodel`: reads case lines (engine TAB id TAB input… TAB => TAB observed…) on stdin and
     prints one verdict line per case: id TAB verdict… -/
 open GitSizer.Driver
@@ -28,6 +29,8 @@ def engineOf (name : String) : Option Engine :=
   | "addr" => some addrEngine
   | "rw" => some rwEngine
   | "fault" => some faultEngine
+  | "paths" => some pathsEngine
+  | "revspec" => some revspecEngine
   | _ => none
 
 def splitCase (fields : List String) : List String × List String :=
